@@ -21,6 +21,8 @@ import (
 
 // recBackoff is a recording deterministic BackOff.
 type recBackoff struct {
+	stopAfter int  // return Stop after this many NextBackOff calls (0 = never)
+	stopped   bool // the last NextBackOff returned Stop
 	w         *world
 	intervals []time.Duration
 	i         int
@@ -31,6 +33,13 @@ type recBackoff struct {
 
 func (b *recBackoff) NextBackOff() time.Duration {
 	b.nexts++
+	if b.stopAfter > 0 && b.nexts > b.stopAfter {
+		// the backoff gives up: no further retry, but the exit is reported like any other
+		b.stopped = true
+		b.last = 0
+		b.w.c.S.Count("probe:backoff-stop")
+		return cbackoff.Stop
+	}
 	d := b.intervals[b.i%len(b.intervals)]
 	if b.i < len(b.intervals)-1 {
 		b.i++
@@ -41,7 +50,13 @@ func (b *recBackoff) NextBackOff() time.Duration {
 	}
 	return d
 }
-func (b *recBackoff) Reset() { b.resets++; b.i = 0; b.w.needReset = false }
+func (b *recBackoff) Reset() {
+	b.resets++
+	b.i = 0
+	b.nexts = 0
+	b.stopped = false
+	b.w.needReset = false
+}
 
 var _ cbackoff.BackOff = (*recBackoff)(nil)
 
@@ -460,6 +475,9 @@ func newWorld(c *core.Ctx, single bool) *world {
 	if w.retry {
 		if c.S.PlanP(700) {
 			w.bo = &recBackoff{w: w, intervals: []time.Duration{100 * time.Millisecond, 200 * time.Millisecond, 400 * time.Millisecond}}
+			if single && c.S.PlanP(300) {
+				w.bo.stopAfter = c.IntRange(1, 2)
+			}
 			opts = append(opts, routine.WithBackoff(w.bo))
 		} else {
 			opts = append(opts, routine.WithRetry(&ubackoff.Backoff{BackoffKind: ubackoff.BackoffKind_BackoffKind_CONSTANT, Constant: &ubackoff.Constant{Interval: 150}}))
